@@ -136,6 +136,11 @@ func (m *lifecycleManager) updateCapabilities() {
 		}
 	}
 
+	// Concurrent initialize requests recompute the capabilities: the stored map is replaced under the lock
+	// and never modified once stored.
+	m.mu.Lock()
+	defer m.mu.Unlock()
+
 	// Preserve existing experimental features
 	if exp, ok := m.capabilities["experimental"]; ok {
 		capMap["experimental"] = exp
@@ -208,13 +213,16 @@ func (m *lifecycleManager) saveSessionState(session Session, protocolVersion str
 
 // buildInitializeResponse creates the initialization response
 func (m *lifecycleManager) buildInitializeResponse(protocolVersion string) InitializeResult {
+	m.mu.RLock()
+	capabilities := convertToServerCapabilities(m.capabilities)
+	m.mu.RUnlock()
 	return InitializeResult{
 		ProtocolVersion: protocolVersion,
 		ServerInfo: Implementation{
 			Name:    m.serverInfo.Name,
 			Version: m.serverInfo.Version,
 		},
-		Capabilities: convertToServerCapabilities(m.capabilities),
+		Capabilities: capabilities,
 		Instructions: "MCP server is ready",
 	}
 }
